@@ -9,6 +9,7 @@ from .exec import Frame, anchor
 from . import models
 
 
+GHOST_CELLS = {'$calls': 0, '$yielded': -1, '$sent': -2}
 DEFAULT_OPAQUE_STR = {'_format', '_ascii2'}
 DEFAULT_OPAQUE_INT = {'_stacklevel_above_module'}
 
@@ -123,6 +124,10 @@ class CallMixin:
                 return VBool(True)
             if nm == 'calls':
                 return VPtr(0)
+            if nm == 'yielded':
+                return VPtr(-1)
+            if nm == 'sent':
+                return VPtr(-2)
             if nm == 'same_except':
                 return self.spec_same_except(node)
             if nm == 'fresh':
@@ -348,8 +353,8 @@ class CallMixin:
             else:
                 k = 0
             for loc in c.modifies:
-                if loc == '$calls':
-                    self.havoc_cell(VPtr(0), node)
+                if loc in GHOST_CELLS:
+                    self.havoc_cell(VPtr(GHOST_CELLS[loc]), node)
                     continue
                 locnode = self.parse_spec(loc)
                 if isinstance(locnode, ast.Attribute):
@@ -650,6 +655,9 @@ class CallMixin:
         st = self.st = State(prefix)
         # ghost: the sequence of opaque callables invoked so far lives in heap cell 0
         st.heap[0] = ListCell(z3.Const('calls!0', z3.SeqSort(RefSort)), 'ref')
+        # ghost: objects yielded by a generator under contract (-1), objects handed over by callees (-2)
+        st.heap[-1] = ListCell(z3.Empty(z3.SeqSort(RefSort)), 'ref')
+        st.heap[-2] = ListCell(z3.Empty(z3.SeqSort(RefSort)), 'ref')
         self.frames = []
         self._wl_stack = []
         self.spec_mode = 0
